@@ -81,17 +81,19 @@ class SimServer:
 
         sim = self.sim
         self.generation += 1
+        gen = self.generation
         tag = "" if self.index == 0 else "%d_" % self.index
-        self.proc = sim.proc("SRV%s%d" % (tag, self.generation))
-        self.down = False
-        # the backend object is created in the server process
-        prev = sim.cur
-        self.inner = self.dep._new_inner(self.proc)
-        self.servicer = smod.OptunaStorageProxyService(self.inner)
+        proc = sim.proc("SRV%s%d" % (tag, gen))
+        # the backend object is created in the server process; the server only accepts
+        # connections (down = False) once it is complete
+        inner = self.dep._new_inner(proc)
+        servicer = smod.OptunaStorageProxyService(inner)
+        self.proc, self.inner, self.servicer = proc, inner, servicer
         for i in range(self.pool):
-            t = sim.spawn(self.proc, "srv%s%d.%d" % (tag, self.generation, i), self._worker)
+            t = sim.spawn(proc, "srv%s%d.%d" % (tag, gen, i), self._worker)
             t.daemon = True
             t.serving = None
+        self.down = False
         for cb in self.on_start:
             cb()
 
